@@ -45,6 +45,32 @@ Proof. exact resolve_h_newest. Qed.
 Theorem C04b_unmentioned_keeps : forall h r id, rev_mention r (fst id) = None -> resolve_h (h ++ [r]) id = resolve_h h id.
 Proof. exact resolve_h_older. Qed.
 
+(* THE SAME, AS A RELATION BETWEEN TWO FILES: the file of the history [h ++ [r]] (any layouts) defines what the file of
+   [h] alone (written with any OTHER layouts) defines, overridden by the update [r]: a number [r] (re)defines is bound
+   to the new value under the new generation only, a number [r] frees is undefined under every generation, every
+   identifier [r] does not mention keeps the binding the old file gives it; the root is the update's. *)
+Theorem C04_bytes_update : forall rel h r L L',
+  wf_history h -> wf_layouts h L' -> wf_history (h ++ [r]) -> wf_layouts (h ++ [r]) L ->
+  exists c c',
+    load_bytes rel (render_history_classic h L') = Loaded c' (latest_root h) /\
+    load_bytes rel (render_history_classic (h ++ [r]) L) = Loaded c (r_root r) /\
+    forall id, ctx_get c id =
+      match rev_mention r (fst id) with
+      | Some (Some (g, v)) => if N.eqb g (snd id) then Some (VObj v) else None
+      | Some None => None
+      | None => ctx_get c' id
+      end.
+Proof. exact load_bytes_update_classic. Qed.
+
+Theorem C04b_update_nonvacuous :
+  exists c c',
+    load_bytes false (render_history_classic [xr0] ex_base_layout) = Loaded c' (1, 0)%N /\
+    load_bytes false (render_history_classic ([xr0] ++ [xr1]) ex_hlayout) = Loaded c (1, 0)%N /\
+    ctx_get c' (2, 0)%N = Some (VObj (OInt 5)) /\ ctx_get c (2, 0)%N = Some (VObj (OInt 7)) /\
+    ctx_get c' (4, 0)%N = Some (VObj (OBool true)) /\ ctx_get c (4, 0)%N = None /\
+    ctx_get c (1, 0)%N = ctx_get c' (1, 0)%N /\ ctx_get c' (3, 0)%N = None /\ ctx_get c (3, 0)%N = Some (VObj (OStr (B "abc"))).
+Proof. exact ex_update_related. Qed.
+
 (* a file whose BASE revision carries a /Prev that points back at one of the tables of the chain (a cycle), or
    outside the file, is rejected — all other hypotheses as above, the base trailer's /Prev being [t] *)
 Theorem C04_bytes_prev_cycle : forall rel h L t,
@@ -97,6 +123,8 @@ Theorem C04b_cycle_example : load_bytes false (render_history_classic [xr0] ex_c
 Proof. exact ex_cycle_rejected. Qed.
 
 Print Assumptions C04_bytes_classic.
+Print Assumptions C04_bytes_update.
+Print Assumptions C04b_update_nonvacuous.
 Print Assumptions C04b_newest_wins.
 Print Assumptions C04b_unmentioned_keeps.
 Print Assumptions C04_bytes_prev_cycle.
